@@ -1,6 +1,6 @@
 """C09 - AdaptiveCache follows the ARC policy and keeps 0 <= p <= size."""
 from .lib import api, ntrun, composite
-from .lib.routing import View, cond_facts, norm_cmp, is_len_of, is_load_of, SELF
+from .lib.routing import View, cond_facts, norm_cmp, outer_enters, established, is_len_of, is_load_of, SELF
 from .lib.absint import fmt_val, subterms
 from .lib.facts import AnalysisError
 
@@ -97,28 +97,20 @@ def shape(v):
 
 
 def admissible(v, prior):
+    """p := v keeps 0 <= p <= size (given 0 <= p <= size before): the guards may be written in either operand order, as a passed or
+    a failed test (min / saturating_sub arrive here as the two paths of their case split)"""
     if v == ("const", "usize", "0"):
         return "zero"
     if v == SIZE:
         return "size"
-    if isinstance(v, tuple) and v[0] == "bin" and v[1] == "Add" and v[2] == P0:
-        d = v[3]
-        for c, t in prior:
-            if c == ("bin", "Ge", ("bin", "Add", P0, d), SIZE) and t is False:
-                return "p+d under p+d<size"
-            if c == ("bin", "Lt", ("bin", "Add", P0, d), SIZE) and t is True:
-                return "p+d under p+d<size"
-            if c == ("bin", "Le", ("bin", "Add", P0, d), SIZE) and t is True:
-                return "p+d under p+d<=size"
+    if v == P0:
+        return "unchanged"
+    if isinstance(v, tuple) and v[0] == "bin" and v[1] == "Add" and P0 in (v[2], v[3]):
+        if established(prior, "Le", v, SIZE) or established(prior, "Le", ("bin", "Add", v[3], v[2]), SIZE):
+            return "p+d under p+d<=size"
     if isinstance(v, tuple) and v[0] == "bin" and v[1] == "Sub" and v[2] == P0:
-        d = v[3]
-        for c, t in prior:
-            if c in (("bin", "Ge", d, P0), ("bin", "Gt", d, P0)) and t is False:
-                return "p-d under d<p"
-            if c in (("bin", "Lt", d, P0), ("bin", "Le", d, P0)) and t is True:
-                return "p-d under d<=p"
-            if c in (("bin", "Ge", P0, d), ("bin", "Gt", P0, d)) and t is True:
-                return "p-d under p>=d"
+        if established(prior, "Le", v[3], P0):
+            return "p-d under d<=p"
     return None
 
 
@@ -218,8 +210,7 @@ def delta_rule(p, bad, cls, G):
     up = G == B1
     if val in (SIZE, ("const", "usize", "0")):
         # clamped: the guard must be about p (+/-) want_d
-        guards = [c for c, t in facts if (up and c[:2] == ("bin", "Ge") and c[2] == ("bin", "Add", P0, want_d) and t) or
-                  (not up and c[:2] == ("bin", "Ge") and c[2] == want_d and c[3] == P0 and t)]
+        guards = established(facts, "Ge", ("bin", "Add", P0, want_d), SIZE) if up else established(facts, "Ge", want_d, P0)
         if (val == SIZE) != up or not guards:
             bad("C09.R2", cls + "-clamp", "p is clamped to %s on a %s hit without the matching guard on p %s delta" % (fmt_val(val), G[0], "+" if up else "-"), stores[0].get("ln"))
         return
@@ -232,11 +223,13 @@ def replace_rule(v, p, bad, cls, want_flag, exclude, fallbacks):
     facts = cond_facts(p)
     # the fullness test
     full = None
+    def resident_sum(x):
+        return isinstance(x, tuple) and x[:2] == ("bin", "Add") and \
+            set(("len", y[1], 0) for y in (x[2], x[3]) if isinstance(y, tuple) and y[0] == "len") == {lenterm(T1), lenterm(T2)}
     for c, t, e in facts:
-        if isinstance(c, tuple) and c[0] == "bin" and c[1] in ("Ge", "Lt") and c[3] == SIZE and isinstance(c[2], tuple) and c[2][:2] == ("bin", "Add"):
-            lens = set(("len", x[1], 0) for x in (c[2][2], c[2][3]) if isinstance(x, tuple) and x[0] == "len")
-            if lens == {lenterm(T1), lenterm(T2)}:
-                full = (c[1] == "Ge") == t
+        r = norm_cmp(c, t, resident_sum)
+        if r and r[2] == SIZE and r[0] in ("Ge", "Lt"):
+            full = r[0] == "Ge"
     res_un = [x for x in v.of("unindex") if x[2] in (T1, T2) and x[3] not in exclude]
     if full is None:
         bad("C09.R3", cls + "-no-full-test", "no test of recent.len() + frequent.len() against size before admitting")
@@ -245,7 +238,7 @@ def replace_rule(v, p, bad, cls, want_flag, exclude, fallbacks):
         if res_un:
             bad("C09.R3", cls + "-evict-not-full", "a resident entry is evicted although the cache is not full")
         return
-    ent = [e for e in p.events if e["ev"] == "enter" and e["q"].endswith("::replace") and e["depth"] == 0]
+    ent = outer_enters(p, lambda e: e["q"].endswith("::replace"))
     if ent:
         flag = ent[0]["args"][1]
         if flag != ("const", "bool", "1" if want_flag else "0"):
